@@ -170,3 +170,336 @@ VARIANTS += [
  dict(name='benign-selector-predicate-on-result', file=V, expect='silent',
       find='func verifyX509TrustedIdentities(', replace='func isAuthenticityResult(r *notation.ValidationResult) bool {\n\treturn r.Type == trustpolicy.TypeAuthenticity\n}\n\nvar _ = isAuthenticityResult\n\nfunc verifyX509TrustedIdentities('),
 ]
+
+# ---- the plugin lookup extracted into a helper (guard clause on the name); capability filters and the rejection of critical
+# ---- attributes extracted into further helpers (shapes of the benign refactorings C12-1 and C02-1)
+OLD_LOOKUP = r'''	// check if we need to verify using a plugin
+	var pluginCapabilities []pluginframework.Capability
+	verificationPluginName, err := getVerificationPlugin(&outcome.EnvelopeContent.SignerInfo)
+	// use plugin, but getPluginName returns an error
+	if err != nil && err != errExtendedAttributeNotExist {
+		return err
+	}
+
+	var installedPlugin pluginframework.VerifyPlugin
+	if verificationPluginName != "" {
+		logger.Debugf("Finding verification plugin %q", verificationPluginName)
+		verificationPluginMinVersion, err := getVerificationPluginMinVersion(&outcome.EnvelopeContent.SignerInfo)
+		if err != nil && err != errExtendedAttributeNotExist {
+			return notation.ErrorVerificationInconclusive{Msg: fmt.Sprintf("error while getting plugin minimum version, error: %s", err)}
+		}
+
+		if v.pluginManager == nil {
+			return notation.ErrorVerificationInconclusive{Msg: "plugin unsupported due to nil verifier.pluginManager"}
+		}
+		installedPlugin, err = v.pluginManager.Get(ctx, verificationPluginName)
+		if err != nil {
+			return notation.ErrorVerificationInconclusive{Msg: fmt.Sprintf("error while locating the verification plugin %q, make sure the plugin is installed successfully before verifying the signature. error: %s", verificationPluginName, err)}
+		}
+
+		// filter the "verification" capabilities supported by the installed
+		// plugin
+		metadata, err := installedPlugin.GetMetadata(ctx, &pluginframework.GetMetadataRequest{PluginConfig: pluginConfig})
+		if err != nil {
+			return err
+		}
+
+		pluginVersion := metadata.Version
+
+		//checking if the plugin version is in valid semver format
+		if !notationsemver.IsValid(pluginVersion) {
+			return notation.ErrorVerificationInconclusive{Msg: fmt.Sprintf("plugin %s has pluginVersion %s which is not in valid semver format", verificationPluginName, pluginVersion)}
+		}
+
+		if !isRequiredVerificationPluginVer(pluginVersion, verificationPluginMinVersion) {
+			return notation.ErrorVerificationInconclusive{Msg: fmt.Sprintf("found plugin %s with version %s but signature verification needs plugin version greater than or equal to %s", verificationPluginName, pluginVersion, verificationPluginMinVersion)}
+		}
+
+		for _, capability := range metadata.Capabilities {
+			if capability == pluginframework.CapabilityRevocationCheckVerifier || capability == pluginframework.CapabilityTrustedIdentityVerifier {
+				pluginCapabilities = append(pluginCapabilities, capability)
+			}
+		}
+
+		if len(pluginCapabilities) == 0 {
+			return notation.ErrorVerificationInconclusive{Msg: fmt.Sprintf("digital signature requires plugin %q with signature verification capabilities (%q and/or %q) installed", verificationPluginName, pluginframework.CapabilityTrustedIdentityVerifier, pluginframework.CapabilityRevocationCheckVerifier)}
+		}
+	}
+'''
+LOOKUP_HELPER = r'''func (v *verifier) lookupVerificationPlugin(ctx context.Context, signerInfo *signature.SignerInfo, pluginConfig map[string]string) (string, pluginframework.VerifyPlugin, []pluginframework.Capability, error) {
+	logger := log.GetLogger(ctx)
+
+	verificationPluginName, err := getVerificationPlugin(signerInfo)
+	// use plugin, but getPluginName returns an error
+	if err != nil && err != errExtendedAttributeNotExist {
+		return "", nil, nil, err
+	}
+	if verificationPluginName == "" {
+		// the signature does not require a verification plugin
+		return "", nil, nil, nil
+	}
+
+	logger.Debugf("Finding verification plugin %q", verificationPluginName)
+	verificationPluginMinVersion, err := getVerificationPluginMinVersion(signerInfo)
+	if err != nil && err != errExtendedAttributeNotExist {
+		return "", nil, nil, notation.ErrorVerificationInconclusive{Msg: fmt.Sprintf("error while getting plugin minimum version, error: %s", err)}
+	}
+
+	if v.pluginManager == nil {
+		return "", nil, nil, notation.ErrorVerificationInconclusive{Msg: "plugin unsupported due to nil verifier.pluginManager"}
+	}
+	installedPlugin, err := v.pluginManager.Get(ctx, verificationPluginName)
+	if err != nil {
+		return "", nil, nil, notation.ErrorVerificationInconclusive{Msg: fmt.Sprintf("error while locating the verification plugin %q, make sure the plugin is installed successfully before verifying the signature. error: %s", verificationPluginName, err)}
+	}
+
+	// filter the "verification" capabilities supported by the installed
+	// plugin
+	metadata, err := installedPlugin.GetMetadata(ctx, &pluginframework.GetMetadataRequest{PluginConfig: pluginConfig})
+	if err != nil {
+		return "", nil, nil, err
+	}
+
+	pluginVersion := metadata.Version
+
+	//checking if the plugin version is in valid semver format
+	if !notationsemver.IsValid(pluginVersion) {
+		return "", nil, nil, notation.ErrorVerificationInconclusive{Msg: fmt.Sprintf("plugin %s has pluginVersion %s which is not in valid semver format", verificationPluginName, pluginVersion)}
+	}
+
+	if !isRequiredVerificationPluginVer(pluginVersion, verificationPluginMinVersion) {
+		return "", nil, nil, notation.ErrorVerificationInconclusive{Msg: fmt.Sprintf("found plugin %s with version %s but signature verification needs plugin version greater than or equal to %s", verificationPluginName, pluginVersion, verificationPluginMinVersion)}
+	}
+
+	var pluginCapabilities []pluginframework.Capability
+	for _, capability := range metadata.Capabilities {
+		if capability == pluginframework.CapabilityRevocationCheckVerifier || capability == pluginframework.CapabilityTrustedIdentityVerifier {
+			pluginCapabilities = append(pluginCapabilities, capability)
+		}
+	}
+
+	if len(pluginCapabilities) == 0 {
+		return "", nil, nil, notation.ErrorVerificationInconclusive{Msg: fmt.Sprintf("digital signature requires plugin %q with signature verification capabilities (%q and/or %q) installed", verificationPluginName, pluginframework.CapabilityTrustedIdentityVerifier, pluginframework.CapabilityRevocationCheckVerifier)}
+	}
+	return verificationPluginName, installedPlugin, pluginCapabilities, nil
+}
+
+'''
+CAPS_HELPER = r'''func verificationCapabilities(capabilities []pluginframework.Capability) []pluginframework.Capability {
+	var pluginCapabilities []pluginframework.Capability
+	for _, capability := range capabilities {
+		if capability == pluginframework.CapabilityRevocationCheckVerifier || capability == pluginframework.CapabilityTrustedIdentityVerifier {
+			pluginCapabilities = append(pluginCapabilities, capability)
+		}
+	}
+	return pluginCapabilities
+}
+
+'''
+SELECT_HELPER = r'''func selectCapabilitiesToVerify(logger log.Logger, pluginCapabilities []pluginframework.Capability, verificationLevel *trustpolicy.VerificationLevel) []pluginframework.Capability {
+	var capabilitiesToVerify []pluginframework.Capability
+	for _, pc := range pluginCapabilities {
+		// skip the revocation capability if the trust policy is configured
+		// to skip it
+		if verificationLevel.Enforcement[trustpolicy.TypeRevocation] == trustpolicy.ActionSkip && pc == pluginframework.CapabilityRevocationCheckVerifier {
+			logger.Debugf("Skipping the %v validation", pc)
+			continue
+		}
+		capabilitiesToVerify = append(capabilitiesToVerify, pc)
+	}
+	return capabilitiesToVerify
+}
+
+'''
+REJECT_HELPER = r'''func rejectCriticalExtendedAttributes(signerInfo *signature.SignerInfo) error {
+	for _, attr := range signerInfo.SignedAttributes.ExtendedAttributes {
+		if attr.Critical {
+			return fmt.Errorf("extended critical attribute %v is not supported: it must be processed by a verification plugin", attr.Key)
+		}
+	}
+	return nil
+}
+
+'''
+OLD_REQUEST_LOOP = r'''		var capabilitiesToVerify []pluginframework.Capability
+		for _, pc := range pluginCapabilities {
+			// skip the revocation capability if the trust policy is configured
+			// to skip it
+			if outcome.VerificationLevel.Enforcement[trustpolicy.TypeRevocation] == trustpolicy.ActionSkip && pc == pluginframework.CapabilityRevocationCheckVerifier {
+				logger.Debugf("Skipping the %v validation", pc)
+				continue
+			}
+			capabilitiesToVerify = append(capabilitiesToVerify, pc)
+		}
+
+'''
+OLD_CRITICAL_LOOP = r'''		for _, attr := range outcome.EnvelopeContent.SignerInfo.SignedAttributes.ExtendedAttributes {
+			if attr.Critical {
+				return fmt.Errorf("extended critical attribute %v is not supported: it must be processed by a verification plugin", attr.Key)
+			}
+		}
+'''
+ANCHOR = 'func (v *verifier) verifyRevocation('
+NEW_LOOKUP_CALL = '''	// check if we need to verify using a plugin
+	verificationPluginName, installedPlugin, pluginCapabilities, err := v.lookupVerificationPlugin(ctx, &outcome.EnvelopeContent.SignerInfo, pluginConfig)
+	if err != nil {
+		return err
+	}
+'''
+FILTER_LOOP = '''	var pluginCapabilities []pluginframework.Capability
+	for _, capability := range metadata.Capabilities {
+		if capability == pluginframework.CapabilityRevocationCheckVerifier || capability == pluginframework.CapabilityTrustedIdentityVerifier {
+			pluginCapabilities = append(pluginCapabilities, capability)
+		}
+	}
+'''
+assert FILTER_LOOP in LOOKUP_HELPER
+
+def lookup_shape(helper=LOOKUP_HELPER, call=NEW_LOOKUP_CALL, more=()):
+    """the base tree with the lookup block of processSignature moved into a helper; `more`: further edits applied afterwards"""
+    return [(V, OLD_LOOKUP, call), (V, ANCHOR, helper + ANCHOR)] + list(more)
+
+def sub(text, find, replace):
+    assert text.count(find) == 1, find
+    return text.replace(find, replace)
+
+# shape of C02-1: the object is kept in a variable of type VerifyPlugin, the capability filter, the request filter and the
+# rejection of critical attributes are helpers of their own
+LOOKUP_HELPER_B = sub(sub(LOOKUP_HELPER,
+    '\tinstalledPlugin, err := v.pluginManager.Get(ctx, verificationPluginName)\n',
+    '\tvar installedPlugin pluginframework.VerifyPlugin\n\tinstalledPlugin, err = v.pluginManager.Get(ctx, verificationPluginName)\n'),
+    FILTER_LOOP, '\tpluginCapabilities := verificationCapabilities(metadata.Capabilities)\n')
+NEW_REQUEST = '\t\tcapabilitiesToVerify := selectCapabilitiesToVerify(logger, pluginCapabilities, outcome.VerificationLevel)\n'
+NEW_CRITICAL = '\t\treturn rejectCriticalExtendedAttributes(&outcome.EnvelopeContent.SignerInfo)\n'
+
+def helpers_shape(lookup=LOOKUP_HELPER_B, caps=CAPS_HELPER, select=SELECT_HELPER, reject=REJECT_HELPER, request=NEW_REQUEST, critical=NEW_CRITICAL, more=()):
+    return [(V, OLD_LOOKUP, NEW_LOOKUP_CALL), (V, OLD_REQUEST_LOOP, request), (V, OLD_CRITICAL_LOOP, critical),
+            (V, ANCHOR, lookup + caps + select + reject + ANCHOR)] + list(more)
+
+VARIANTS += [
+ # silent: the two shapes
+ dict(name='benign-lookup-helper', expect='silent', edits=lookup_shape(),
+      why='plugin lookup moved into a helper with a guard clause on the name; the object is kept as plugin.Plugin (refactoring C12-1)'),
+ dict(name='benign-lookup-and-filter-helpers', expect='silent', edits=helpers_shape(),
+      why='lookup, capability filter, request filter and critical-attribute rejection are helpers (refactoring C02-1)'),
+ dict(name='benign-get-result-kept-as-plugin-interface', expect='silent', file=V,
+      find='\t\tinstalledPlugin, err = v.pluginManager.Get(ctx, verificationPluginName)\n',
+      replace='\t\tfound, err := v.pluginManager.Get(ctx, verificationPluginName)\n\t\tinstalledPlugin = found\n',
+      edits=[(V, '\t\tmetadata, err := installedPlugin.GetMetadata(', '\t\tmetadata, err := found.GetMetadata(')],
+      why='GetMetadata invoked through the plugin.Plugin interface: same method of the same object'),
+ # the lookup helper with the property broken
+ dict(name='lookup-helper-error-dropped', expect='flagged(plugin/lookup-error)',
+      edits=lookup_shape(call=sub(NEW_LOOKUP_CALL, 'pluginCapabilities, err := v.lookup', 'pluginCapabilities, _ := v.lookup').replace('\tif err != nil {\n\t\treturn err\n\t}\n', ''))),
+ dict(name='lookup-helper-get-error-ignored', expect='flagged(plugin/get-error)',
+      edits=lookup_shape(helper=sub(LOOKUP_HELPER, 'Get(ctx, verificationPluginName)\n\tif err != nil {', 'Get(ctx, verificationPluginName)\n\tif err != nil && installedPlugin == nil {'))),
+ dict(name='lookup-helper-metadata-error-ignored', expect='flagged(plugin/metadata-error)',
+      edits=lookup_shape(helper=sub(LOOKUP_HELPER, '\tif err != nil {\n\t\treturn "", nil, nil, err\n\t}\n\n\tpluginVersion', '\tif err != nil && metadata == nil {\n\t\treturn "", nil, nil, err\n\t}\n\n\tpluginVersion'))),
+ dict(name='lookup-helper-min-version-unchecked', expect='flagged(plugin/min-version)',
+      edits=lookup_shape(helper=sub(LOOKUP_HELPER, '\tif !isRequiredVerificationPluginVer(pluginVersion, verificationPluginMinVersion) {', '\tif !isRequiredVerificationPluginVer(pluginVersion, verificationPluginMinVersion) && pluginConfig != nil {'))),
+ dict(name='lookup-helper-manager-nil-unchecked', expect='flagged(plugin/manager-nil)',
+      edits=lookup_shape(helper=sub(LOOKUP_HELPER, '\tif v.pluginManager == nil {', '\tif v.pluginManager == nil && pluginConfig != nil {'))),
+ dict(name='lookup-helper-no-capability-accepted', expect='flagged(plugin/no-capability)',
+      edits=lookup_shape(helper=sub(LOOKUP_HELPER, '\tif len(pluginCapabilities) == 0 {', '\tif len(pluginCapabilities) == 0 && pluginConfig != nil {'))),
+ dict(name='lookup-helper-hands-back-nil-plugin', expect='flagged(plugin/lookup-results)',
+      edits=lookup_shape(helper=sub(LOOKUP_HELPER, '\treturn verificationPluginName, installedPlugin, pluginCapabilities, nil\n', '\treturn verificationPluginName, nil, pluginCapabilities, nil\n')),
+      why='a plugin is named and found but the processing function is told there is none: it is never executed'),
+ dict(name='lookup-helper-capabilities-without-plugin', expect='flagged(plugin/lookup-results)',
+      edits=lookup_shape(helper=sub(LOOKUP_HELPER, '\t\treturn "", nil, nil, nil\n', '\t\treturn "", nil, []pluginframework.Capability{pluginframework.CapabilityTrustedIdentityVerifier}, nil\n')),
+      why='no plugin named, yet the native identity check is routed away'),
+ dict(name='lookup-helper-early-success-exit', expect='flagged(plugin/lookup-results)',
+      edits=lookup_shape(helper=sub(LOOKUP_HELPER, '\tif v.pluginManager == nil {\n', '\tif pluginConfig == nil {\n\t\treturn "", nil, nil, nil\n\t}\n\tif v.pluginManager == nil {\n')),
+      why='with a plugin named and no plugin config the helper answers "no plugin": the named plugin is silently ignored'),
+ dict(name='lookup-helper-unfiltered-capabilities', expect='flagged(routing/declared-capabilities)',
+      edits=lookup_shape(helper=sub(LOOKUP_HELPER, '\treturn verificationPluginName, installedPlugin, pluginCapabilities, nil\n', '\treturn verificationPluginName, installedPlugin, metadata.Capabilities, nil\n'))),
+ dict(name='lookup-helper-name-attr-error-ignored', expect='flagged(plugin/name-attr)',
+      edits=lookup_shape(helper=sub(LOOKUP_HELPER, '\tif err != nil && err != errExtendedAttributeNotExist {\n\t\treturn "", nil, nil, err\n\t}\n', '\tif err != nil && err != errExtendedAttributeNotExist && pluginConfig != nil {\n\t\treturn "", nil, nil, err\n\t}\n'))),
+ # the further helpers with the property broken
+ dict(name='filter-helper-keeps-every-capability', expect='flagged(routing/declared-capabilities)',
+      edits=helpers_shape(caps=sub(CAPS_HELPER, 'if capability == pluginframework.CapabilityRevocationCheckVerifier || capability == pluginframework.CapabilityTrustedIdentityVerifier {', 'if capability != "" {'))),
+ dict(name='filter-helper-fed-other-list', expect='flagged(routing/declared-capabilities)',
+      edits=helpers_shape(lookup=sub(LOOKUP_HELPER_B, 'verificationCapabilities(metadata.Capabilities)', 'verificationCapabilities([]pluginframework.Capability{pluginframework.CapabilityTrustedIdentityVerifier, pluginframework.CapabilityRevocationCheckVerifier})')),
+      why='the routing list no longer says what the installed plugin declares'),
+ dict(name='request-helper-sends-revocation-under-skip', expect='flagged(routing/request-omits-skipped-revocation)',
+      edits=helpers_shape(select=sub(SELECT_HELPER, '&& pc == pluginframework.CapabilityRevocationCheckVerifier {', '&& pc == pluginframework.CapabilityTrustedIdentityVerifier {'))),
+ dict(name='request-helper-reads-other-level', expect='flagged(routing/request-omits-skipped-revocation)',
+      edits=helpers_shape(request=sub(NEW_REQUEST, 'outcome.VerificationLevel)', 'trustpolicy.LevelStrict)')),
+      why='the helper is handed a level other than the one in force: revocation is requested although the policy skips it'),
+ dict(name='request-helper-fed-other-list', expect='flagged(routing/request-from-declared)',
+      edits=helpers_shape(request=sub(NEW_REQUEST, 'logger, pluginCapabilities,', 'logger, []pluginframework.Capability{pluginframework.CapabilityTrustedIdentityVerifier, pluginframework.CapabilityRevocationCheckVerifier},'))),
+ dict(name='reject-helper-result-dropped', expect='flagged(critical-attr-accounting/no-plugin-named)',
+      edits=helpers_shape(critical='\t\t_ = rejectCriticalExtendedAttributes(&outcome.EnvelopeContent.SignerInfo)\n')),
+ dict(name='reject-helper-tolerates-single-attribute', expect='flagged(critical-attr-accounting/no-plugin-named)',
+      edits=helpers_shape(reject=sub(REJECT_HELPER, '\t\tif attr.Critical {', '\t\tif attr.Critical && len(signerInfo.SignedAttributes.ExtendedAttributes) > 1 {'))),
+ dict(name='reject-helper-stops-after-first', expect='flagged(critical-attr-accounting/no-plugin-named)',
+      edits=helpers_shape(reject=sub(REJECT_HELPER, '\t\tif attr.Critical {', '\t\tif !attr.Critical {\n\t\t\treturn nil\n\t\t}\n\t\tif attr.Critical {')),
+      why='a non-critical first attribute ends the scan: a critical one behind it is accepted'),
+]
+
+# ---- further shapes of the same kind
+OLD_EXEC = '''			response, err := executePlugin(ctx, installedPlugin, capabilitiesToVerify, outcome.EnvelopeContent, trustedIdentities, pluginConfig)
+			if err != nil {
+				return fmt.Errorf("failed to verify with plugin %s: %w", verificationPluginName, err)
+			}
+
+			return processPluginResponse(capabilitiesToVerify, response, outcome)
+'''
+NEW_EXEC = '\t\t\treturn runVerificationPlugin(ctx, installedPlugin, verificationPluginName, capabilitiesToVerify, outcome, trustedIdentities, pluginConfig)\n'
+RUN_HELPER = '''func runVerificationPlugin(ctx context.Context, installedPlugin pluginframework.VerifyPlugin, verificationPluginName string, capabilitiesToVerify []pluginframework.Capability, outcome *notation.VerificationOutcome, trustedIdentities []string, pluginConfig map[string]string) error {
+	response, err := executePlugin(ctx, installedPlugin, capabilitiesToVerify, outcome.EnvelopeContent, trustedIdentities, pluginConfig)
+	if err != nil {
+		return fmt.Errorf("failed to verify with plugin %s: %w", verificationPluginName, err)
+	}
+	return processPluginResponse(capabilitiesToVerify, response, outcome)
+}
+
+'''
+def run_shape(helper=RUN_HELPER, call=NEW_EXEC):
+    return [(V, OLD_EXEC, call), (V, ANCHOR, helper + ANCHOR)]
+
+GUARD = '''	if verificationPluginName == "" {
+		// the signature does not require a verification plugin
+		return "", nil, nil, nil
+	}
+'''
+LOOKUP_HELPER_NESTED = sub(sub(LOOKUP_HELPER, GUARD, '\tif verificationPluginName != "" {\n'),
+    '\treturn verificationPluginName, installedPlugin, pluginCapabilities, nil\n}\n', '\treturn verificationPluginName, installedPlugin, pluginCapabilities, nil\n\t}\n\treturn "", nil, nil, nil\n}\n')
+LOOKUP_FUNC = sub(sub(sub(LOOKUP_HELPER, 'func (v *verifier) lookupVerificationPlugin(ctx context.Context, ', 'func lookupVerificationPlugin(ctx context.Context, manager plugin.Manager, '),
+    '\tif v.pluginManager == nil {', '\tif manager == nil {'), 'v.pluginManager.Get(', 'manager.Get(')
+
+VARIANTS += [
+ dict(name='benign-lookup-helper-nested-form', expect='silent', edits=lookup_shape(helper=LOOKUP_HELPER_NESTED),
+      why='the helper keeps the `if name != "" {…}` nesting instead of the guard clause'),
+ dict(name='benign-lookup-plain-function', expect='silent',
+      edits=lookup_shape(helper=LOOKUP_FUNC, call=sub(NEW_LOOKUP_CALL, 'v.lookupVerificationPlugin(ctx, ', 'lookupVerificationPlugin(ctx, v.pluginManager, ')),
+      why='the helper is a plain function that is handed the plugin manager'),
+ dict(name='benign-run-plugin-helper', expect='silent', edits=run_shape(),
+      why='plugin execution and response processing wrapped in one helper the processing function returns'),
+ dict(name='benign-lookup-and-run-helpers', expect='silent', edits=helpers_shape(more=run_shape())),
+ dict(name='run-plugin-helper-execution-error-dropped', expect='flagged(plugin/verify-signature-error)',
+      edits=run_shape(helper=sub(RUN_HELPER, '\tif err != nil {\n\t\treturn fmt.Errorf("failed to verify with plugin %s: %w", verificationPluginName, err)\n\t}\n', '\tif err != nil && response == nil {\n\t\treturn fmt.Errorf("failed to verify with plugin %s: %w", verificationPluginName, err)\n\t}\n'))),
+ dict(name='run-plugin-helper-result-dropped', expect='flagged(plugin/execute-error)',
+      edits=run_shape(call='\t\t\t_ = runVerificationPlugin(ctx, installedPlugin, verificationPluginName, capabilitiesToVerify, outcome, trustedIdentities, pluginConfig)\n')),
+ dict(name='run-plugin-helper-missing-verdict-accepted', expect='flagged(plugin/missing-verdict)',
+      edits=run_shape() + [(V, '''		if pluginResult == nil {
+			// verification result is empty for this capability
+			return notation.ErrorVerificationInconclusive{Msg: fmt.Sprintf("verification plugin %q failed to verify %q", verificationPluginName, capability)}
+		}''', '''		if pluginResult == nil {
+			continue
+		}''')]),
+ dict(name='reject-helper-fed-other-signer-info', expect='flagged(critical-attr-accounting/no-plugin-named)',
+      edits=helpers_shape(critical='\t\treturn rejectCriticalExtendedAttributes(&signature.SignerInfo{})\n'),
+      why='the helper scans an empty signer info instead of the one under verification'),
+ dict(name='F8a-reintroduced-in-helper-shape', expect='flagged(critical-attr-accounting/no-plugin-named)',
+      edits=helpers_shape(critical='\t\treturn nil\n')),
+ dict(name='early-return-in-accounting-loop', expect='flagged(critical-attr-accounting/no-plugin-named)', file=V,
+      find='''		for _, attr := range outcome.EnvelopeContent.SignerInfo.SignedAttributes.ExtendedAttributes {
+			if attr.Critical {
+				return fmt.Errorf("extended critical attribute %v is not supported: it must be processed by a verification plugin", attr.Key)''',
+      replace='''		for _, attr := range outcome.EnvelopeContent.SignerInfo.SignedAttributes.ExtendedAttributes {
+			if !attr.Critical {
+				return nil
+			}
+			if attr.Critical {
+				return fmt.Errorf("extended critical attribute %v is not supported: it must be processed by a verification plugin", attr.Key)''',
+      why='a non-critical first attribute ends the scan: a critical one behind it is accepted (reference shape)'),
+]
